@@ -19,7 +19,10 @@ MISUSE = ['foreign_var_constraint', 'foreign_var_mixed_expr', 'foreign_var_objec
           'foreign_piecewise_piece', 'foreign_piecewise_objective', 'foreign_expected_piecewise', 'foreign_scaled_convex_plus_var',
           'objective_redefined_after_zero', 'objective_redefined_after_constant',
           'foreign_expcone_x', 'foreign_expcone_y', 'foreign_expcone_z', 'foreign_rsocone_x', 'foreign_rsocone_y',
-          'foreign_pexp_scale', 'foreign_quad_plus_var', 'foreign_gmean_bound', 'foreign_exp_bound']
+          'foreign_pexp_scale', 'foreign_quad_plus_var', 'foreign_gmean_bound', 'foreign_exp_bound',
+          'foreign_piecewise_biaffine_piece', 'foreign_piecewise_biaffine_objective', 'foreign_scenario_set_adapt',
+          'foreign_rvar_coefficient_query', 'foreign_rvar_assign_eval',
+          'read_infeasible_ecos', 'read_infeasible_ortools', 'read_infeasible_gurobi', 'read_unbounded_ecos', 'read_unbounded_gurobi']
 
 
 @st.composite
@@ -33,7 +36,51 @@ def model_ir(draw):
 
 
 @st.composite
+def params_case(draw):
+    """solver parameters given to one solve() must not reach another model: A is solved through Gurobi with a parameter that
+    stops the search early, then the knapsack B is solved without parameters and must reach its brute-force optimum"""
+    n = draw(st.integers(6, 10))
+    return {'mode': 'params', 'n': n, 'w': [draw(st.integers(3, 15)) for _ in range(n)], 'v': [draw(st.integers(5, 40)) for _ in range(n)],
+            'cap_frac': draw(st.sampled_from([0.3, 0.5, 0.6])), 'param': draw(st.sampled_from([['SolutionLimit', 1], ['NodeLimit', 0], ['Heuristics', 0.0],
+                                                                                                   ['IterationLimit', 0], ['BestObjStop', 0.0]])),
+            'front': draw(st.sampled_from(['ro', 'dro']))}
+
+
+def check_params(case):
+    import itertools
+    from rsome import ro, dro, grb_solver
+    n, w, v = case['n'], np.array(case['w'], dtype=float), np.array(case['v'], dtype=float)
+    cap = float(np.floor(case['cap_frac'] * w.sum()))
+    labels = ['mode:params', 'param:' + case['param'][0]]
+
+    def knap():
+        m = ro.Model() if case['front'] == 'ro' else dro.Model()
+        x = m.dvar(n, 'B')
+        m.max(v @ x)
+        m.st(w @ x <= cap)
+        return m, x
+    best = max(float(v @ np.array(b)) for b in itertools.product((0, 1), repeat=n) if w @ np.array(b) <= cap)
+    mA, xA = knap()
+    with quiet():
+        mA.solve(grb_solver, display=False, params={case['param'][0]: case['param'][1]})
+    mB, xB = knap()
+    with quiet():
+        mB.solve(grb_solver, display=False)
+    try:
+        got = mB.get()
+    except Exception as ex:
+        return Outcome.fail('params_leak:no_solution', 'after another model was solved with params=%r, a model solved without parameters has no '
+                            'solution (%r); its optimum is %g' % (dict([case['param']]), ex, best), labels)
+    if abs(got - best) > 1e-6 * (1 + abs(best)):
+        return Outcome.fail('params_leak:value', 'after another model was solved with params=%r, a knapsack solved without parameters reports '
+                            '%g; brute force gives %g' % (dict([case['param']]), got, best), labels)
+    return Outcome.ok(True, labels)
+
+
+@st.composite
 def c17_case(draw):
+    if draw(st.integers(0, 11)) == 0:
+        return draw(params_case())
     if draw(st.integers(0, 2)) == 0:
         fronts = draw(st.sampled_from([('ro', 'ro'), ('ro', 'dro'), ('dro', 'ro'), ('dro', 'dro')]))
         return {'mode': 'misuse', 'which': draw(st.sampled_from(MISUSE)), 'fronts': list(fronts), 'n': draw(st.integers(1, 3)),
@@ -246,6 +293,53 @@ def misuse(case):
         mA.min(rso.norm(xB))
     elif w == 'foreign_piecewise_piece':
         mA.st(rso.maxof(xA.sum(), xB.sum() + 1) <= 5)
+    elif w == 'foreign_piecewise_biaffine_piece':
+        # a piece that is bi-affine in a decision and a random variable of the other model
+        mA.st(rso.maxof(xA[0], zB @ xB) <= 5)
+    elif w == 'foreign_piecewise_biaffine_objective':
+        if f1 == 'ro':
+            mA.minmax(rso.maxof(xA[0] + zA[0], zB @ xB), abs(zA) <= 1)
+        else:
+            mA.minsup(E(rso.maxof(xA[0] + zA[0], zB @ xB)), A['fs'])
+    elif w == 'foreign_scenario_set_adapt':
+        # event-wise adaptation declared with the scenario set of the other model's ambiguity set
+        if f1 != 'dro' or f2 != 'dro':
+            return None
+        xA.adapt(B['fs'][1])
+    elif w in ('foreign_rvar_coefficient_query', 'foreign_rvar_assign_eval'):
+        # coefficients / values of a decision rule of A asked for a random variable of B
+        yA = A['y'] if f1 == 'ro' else mA.dvar(n)
+        yA.adapt(zA)
+        mA.st(yA <= 5, yA >= -5)
+        if case.get('control'):
+            mA.st(xB >= 0, xB <= 1)
+        complete(A)
+        readable(A)
+        if w == 'foreign_rvar_coefficient_query':
+            got = yA.get(zB)
+        else:
+            got = yA(zB.assign(np.ones(n)))
+        return 'a query of a decision rule with a random variable of another model returned %r' % (got,)
+    elif w.startswith(('read_infeasible_', 'read_unbounded_')):
+        from rsome import eco_solver, ort_solver, grb_solver
+        solver = {'ecos': eco_solver, 'ortools': ort_solver, 'gurobi': grb_solver}[w.split('_')[2]]
+        if f1 == 'ro':
+            mA.minmax(xA.sum() + zA.sum(), abs(zA) <= 1)
+        else:
+            mA.minsup(E(xA.sum() + zA.sum()), A['fs'])
+        if w.startswith('read_infeasible'):
+            mA.st(xA >= 0, xA <= 1, xA.sum() >= 2 * n + 1)
+        else:
+            mA.st(xA <= 1)
+        with quiet():
+            mA.solve(solver, display=False)
+        try:
+            v = mA.get()
+            return 'model.get() returned %r for a model that is %s (solved through %s)' % (v, w.split('_')[1], w.split('_')[2])
+        except RuntimeError:
+            pass
+        got = xA.get()
+        return 'x.get() returned %r for a model that is %s (solved through %s)' % (got, w.split('_')[1], w.split('_')[2])
     elif w == 'foreign_piecewise_objective':
         if f1 == 'ro':
             mA.min(rso.maxof(xA.sum(), xB.sum() + 1))
@@ -328,6 +422,8 @@ class C17(Prop):
         return c17_case()
 
     def check(self, case):
+        if case['mode'] == 'params':
+            return check_params(case)
         if case['mode'] == 'misuse':
             labels = ['misuse:' + case['which'], 'fronts:' + '-'.join(case['fronts']), 'when:' + case['when']]
             try:
